@@ -60,16 +60,24 @@ def run(ctx):
         ctx.leanchecker(PROPS)
     ctx.build_driver("e1")
     corr_broken = []
-    binp = ctx.go_test_binary("nsqd", ["e1/num_test.go", "e1/num_ms_test.go", "e1/timing_test.go"], "e1c04")
+    H = "e1/e1_helpers_test.go"
+    binp = ctx.go_test_binary("nsqd", [H, "e1/num_test.go", "e1/num_ms_test.go", "e1/timing_test.go"], "e1c04")
+    extra_bins = []
     if not binp:
         # white-box parts may stop compiling when internals change: fall back to what still builds
-        ctx.broken_ties.append("harness e1/num_ms_test.go (direct msToDuration) does not compile against the current tree")
+        ctx.broken_ties.append("the full harness (e1/num_test.go + num_ms_test.go + timing_test.go) does not compile "
+                               "against the current tree")
         corr_broken.append("white-box harness build")
-        binp = ctx.go_test_binary("nsqd", ["e1/num_test.go", "e1/timing_test.go"], "e1c04b")
+        binp = ctx.go_test_binary("nsqd", [H, "e1/num_test.go", "e1/timing_test.go"], "e1c04b")
         if not binp:
-            binp = ctx.go_test_binary("nsqd", ["e1/num_test.go"], "e1c04c")
+            binp = ctx.go_test_binary("nsqd", [H, "e1/num_test.go"], "e1c04c")
+            tb = ctx.go_test_binary("nsqd", [H, "e1/timing_test.go"], "e1c04d")
+            if binp and tb:
+                extra_bins.append(tb)
+            elif tb:
+                binp = tb
     if not binp:
-        ctx.broken_ties.append("harness e1/num_test.go does not compile against the current tree")
+        ctx.broken_ties.append("no part of the C04 harness compiles against the current tree")
         corr_broken.append("harness build")
     elif ctx.replay_in:
         num_ops = ("b10", "ms2dur", "req", "reqtcp", "dpub", "hdefer", "setmsgtimeout")
@@ -81,6 +89,9 @@ def run(ctx):
     else:
         run_all(ctx, binp, corr_broken, scale=1)
         run_wall(ctx, binp, corr_broken)
+        for b in extra_bins:
+            run_all(ctx, b, corr_broken, scale=1)
+            run_wall(ctx, b, corr_broken)
         # search phase: a tie or a correspondence broke but no oracle failed → look harder
         if (ctx.broken_ties or corr_broken) and not ctx.violations:
             ctx.log("tie/correspondence broken without an oracle failure: searching with 10x the budget")
